@@ -354,7 +354,14 @@ class World:
             want = unused
             r = target.undeclare_vars()
         else:
-            sel = self.names_of_mask(mask)
+            if (mask >> 12) & 3 == 3 or not unused:
+                # arbitrary subset (may contain used variables)
+                sel = self.names_of_mask(mask)
+            else:
+                # a subset of the unused variables
+                ul = [x for x in self.order if x in unused]
+                sel = [x for k, x in enumerate(ul) if (mask >> k) & 1] \
+                    or [ul[mask % len(ul)]]
             if not sel:
                 return
             if not set(sel) <= unused:
@@ -927,7 +934,16 @@ class World:
         if target != self.order:
             self.label('reorder_to.changed')
             self.nontrivial.add('reorder_to')
-        self._reorder_call({x: l for l, x in enumerate(target)})
+        # the order dict may list the names in any insertion order
+        items = [(x, l) for l, x in enumerate(target)]
+        k = (p // 720) % 4
+        if k == 1:
+            items.sort()
+        elif k == 2:
+            items.reverse()
+        elif k == 3:
+            random.Random(p).shuffle(items)
+        self._reorder_call(dict(items))
         self.order = target
         self._same_identity(before)
 
@@ -1368,8 +1384,6 @@ def fails(hist, bucket_of):
         w = run_history(hist)
     except Violation as v:
         return bucket_of(v)
-    except RecursionError:
-        return None
     except Exception as e:
         from .viol import innermost_dd_frame
         fr = innermost_dd_frame(e)
@@ -1423,8 +1437,6 @@ def run_and_collect(hist, out, shrink=True):
     try:
         w = run_history(hist)
         return w
-    except RecursionError:
-        raise
     except Exception as e:
         from .viol import innermost_dd_frame
         if not isinstance(e, Violation) and \
